@@ -3,7 +3,7 @@ import opscheck
 import opsdrive
 
 CLAUSES = ["C06_DiffConst", "C06_CentralConst", "C06_UpwindConst", "C06_UpwindAltConst",
-           "C06_SourceDiag", "C06_SourceVec", "C06_SourceSolve", "C06_TvdConst"]
+           "C06_SourceDiag", "C06_SourceVec", "C06_SourceForms", "C06_SourceSolve", "C06_TvdConst"]
 
 
 opscheck.NEEDS["C06_Steady"] = []
